@@ -92,8 +92,13 @@ func (t *Collection) closeCollection() { // Just "close" is a keyword.
 	t.rootLock.Lock()
 	r := t.root
 	t.root = nil
+	// Only the last holder of the newest version may recycle its whole tree;
+	// otherwise other handles or later versions still share these nodes.
+	sole := r != nil && r.refs == 1 && r.chainedRootNodeLoc == nil
 	t.rootLock.Unlock()
-	t.reclaimMarkUpdate(r.root, nil, &r.reclaimMark)
+	if sole {
+		t.reclaimMarkUpdate(r.root, nil, &r.reclaimMark)
+	}
 	if r != nil {
 		t.rootDecRef(r)
 	}
